@@ -161,6 +161,7 @@ def run(ctx, facts):
     ctx.rule("U2", "no user code between lock_root and unlock_root", floor=2)
     ctx.rule("U3", "retain / retain_force predicates are called under no lock", floor=2)
     ctx.rule("U4", "no shared write or retire between the lock acquisition and the callback", floor=2)
+    ctx.rule("U5", "no caller-supplied closure runs between unlinking an entry and adjusting the count", floor=2)
     cg = callgraph(facts)
     # U1 + U4 over every body that calls a user closure while holding a bin lock
     n_locked = 0
@@ -247,5 +248,21 @@ def run(ctx, facts):
         ctx.inst("U3", b, "predicate under no lock", b.span, bool(preds) and not bad,
                  "%d predicate call(s); no lock region open" % len(preds) if preds and not bad else
                  ("predicate called at %s with a lock held" % bad[0].span if bad else "no predicate call found"))
+    # U5: no caller-supplied closure runs between an unlink and the adjustment of the count (a panic there would leave len() wrong for good)
+    from .rules_c05 import find_removal_bodies, CountSpec, lifted_count_check
+    from .esp import Esp
+    ac = facts.body("map::HashMap::add_count")
+    uncounted = []
+    for b, c, e in find_removal_bodies(facts):
+        spec = CountSpec(b, -1, c, e, ac.id)
+        Esp(b, spec).run()
+        if spec.closure_while_pending:
+            for (pt, why) in [k for k in spec.errors if "closure runs between" in k[1]][:2]:
+                ctx.inst("U5", b, "callback between unlink and count adjustment", b.span_at(pt), False, why)
+        else:
+            ctx.inst("U5", b, "no callback between unlink and count adjustment", b.span, True, "%d unlink site(s)" % len(c))
+        if spec.returns_pending and not b.exported:
+            uncounted.append(b)
+    lifted_count_check(ctx, facts, uncounted, rule="U5")
     if n_locked < 2:
         ctx.fail_closed("U1: expected the two compute_if_present callback sites under a bin lock, found %d" % n_locked)
